@@ -2,6 +2,7 @@ import TunnoxModel.Proofs.C16
 import TunnoxModel.Proofs.C02
 import TunnoxModel.Proofs.C16Start
 import TunnoxModel.Proofs.C16Bg
+import TunnoxModel.Proofs.C16Stats
 /-!
 # C16 — shutdown paths run exactly once and leave nothing running
 
@@ -212,6 +213,29 @@ theorem C16_bridge_attach_guard_witness :
     holdsA (aObs (closeSeq true (run (aProg true) [0, 0, 0, 1] (aInit [.a1, .attT])).sh)) = false := by
   decide
 
+/-! ## Client mapping handler: traffic totals of finished tunnels -/
+
+/-- The pending totals are claimed (`Swap`) before `TrackTraffic` is called; the adds are the rollback. -/
+theorem skel_mapping_reportStats :
+    Skel.Mapping_reportStats = ["BytesSent.Swap", "BytesReceived.Swap", "client.TrackTraffic",
+      "BytesSent.Add", "BytesReceived.Add"] := by decide
+
+/-- **Every interleaving** of any number of `reportStats` callers — ticks of `reportStatsLoop`, the
+final report of the handler's close cleanup — each with a succeeding or a failing `TrackTraffic`
+(`fails`), on any accumulated totals `a`, `b`: when all have returned, what was handed to successful
+`TrackTraffic` calls plus what is still pending equals `a` / `b` (each byte reported at most once,
+none lost), the pending counters are not negative, and with no failing call and at least one
+report nothing is pending (reported exactly once). -/
+theorem C16_client_report (a b : Nat) (fails : List Bool) (s : Schedule) :
+    holdsP a b fails (pObs (pFinal .swap a b fails s)) = true :=
+  holdsP_final a b fails s
+
+/-- The rejected "Load, TrackTraffic, subtract afterwards": the periodic report is inside
+`TrackTraffic` when the final report reads the same totals. -/
+theorem C16_client_report_loadSub_witness :
+    holdsP 1000 500 [false, false] (pObs (pFinal .loadSub 1000 500 [false, false] [0, 0, 1, 1, 1, 1, 0, 0])) = false := by
+  decide
+
 /-! ## Traffic report -/
 
 /-- **Totals reported exactly once, every schedule.** Any list of rounds (bytes counted, then any
@@ -319,6 +343,10 @@ example : holdsG (gObs (gFinal .keep 1 1 [1, 1, 2, 2, 0, 2, 1, 1, 1])) = true :=
 example : (gFinal .replace 1 1 [1, 1, 2, 2, 0, 2, 1, 1, 1]).ths[1]? = some ⟨GPc.wait, 0, 1⟩ := by decide
 example : aObs (closeSeq false (run (aProg false) [0, 0, 0, 1] (aInit [.a1, .attT])).sh) = ⟨1, 1, 1, 1, 0, 0, 0⟩ := by decide
 example : aObs (closeSeq true (run (aProg true) [0, 0, 0, 1] (aInit [.a1, .attT])).sh) = ⟨1, 1, 1, 0, 0, 0, 1⟩ := by decide
+example : pObs (pFinal .swap 1000 500 [false, false] [0, 0, 1, 1, 1, 1, 0, 0]) = ⟨1000, 500, 0, 0, 1, 0⟩ := by decide
+example : pObs (pFinal .loadSub 1000 500 [false, false] [0, 0, 1, 1, 1, 1, 0, 0]) = ⟨2000, 1000, -1000, -500, 2, 0⟩ := by decide
+example : pObs (pFinal .swap 7 0 [true, false] [0, 0, 0, 0, 1, 1, 1]) = ⟨7, 0, 0, 0, 2, 0⟩ := by decide
+example : pObs (pFinal .swap 7 0 [true, false] [0, 0, 0, 1, 1]) = ⟨0, 0, 7, 0, 1, 0⟩ := by decide
 example : (bFinal 3 [0, 1, 2, 2, 1, 0]).sh.sc = 2 ∧ (bFinal 3 [0, 1, 2, 2, 1, 0]).sh.cleanups = 1 := by decide
 
 end Tunnox.C16
